@@ -995,6 +995,9 @@ impl<'a> Interp<'a> {
                 let mut parts: Vec<(Vec<Val>, Vec<Row>)> = vec![];
                 for r in rel.rows.iter() {
                     let k: Vec<Val> = keys.iter().map(|c| r.vals[c.idx].clone()).collect();
+                    if k.iter().any(|v| matches!(v, Val::Either(..))) {
+                        return amb("open value as group key");
+                    }
                     match parts.iter_mut().find(|(pk, _)| keys_eq(pk, &k)) {
                         Some((_, rows)) => rows.push(r.clone()),
                         None => parts.push((k, vec![r.clone()])),
